@@ -665,6 +665,8 @@ class PhaseField(_Simu):
             if psiP_e_pg.ndim >= 2:
                 psiP_e_pg = FeArray.asfearray(psiP_e_pg)
             self.__old_psiP_e_pg = psiP_e_pg
+            # the current field too: a Save_Iter that follows without a Solve stores the restored history, not the one of the state left behind
+            self.__psiP_e_pg = psiP_e_pg
 
         if (
             resetAll
